@@ -29,7 +29,7 @@ RULE = ("natural random stream only.  Six closed-form configurations derived fro
         "configuration: (1) PIT of every recorded exponential clock in 20 bins, (2) PIT of holding times against the total "
         "reference rate in 20 bins and Azuma-Hoeffding bound on sum(1{event j fired} - a_j/a_0) per event slot, (3) exact "
         "binomial regions for pooled chain occupancy at time t against expm(Qt) and for SIR final size against the "
-        "embedded-jump-chain pmf; per-step refinement of the first-reaction method on every path.  non-trivial = a run that "
+        "embedded-jump-chain pmf (every other path observed through gridded output instead of the raw path); per-step refinement of the first-reaction method on every path.  non-trivial = a run that "
         "simulated >= 50 exact steps; distinct = distinct case digests")
 MEASURE = "distinct (configuration kind, population, number of events) tuples"
 COMPONENTS = {"real": ["pygom SimulateOde.solve_stochast(exact=True)", "stochastic_simulation.firstReaction/_newJumpTimes",
@@ -161,6 +161,34 @@ def run_chunk(case):
         op = {"op": "paths", "T": float(horizon), "n": 1, "exact": True, "single": True}
         for pth in range(int(case["paths"])):
             sess.r.reset_log()
+            # every other path of a closed-form configuration is observed through gridded output
+            gridded = kind in ("chain", "sir") and pth % 2 == 1
+            if gridded:
+                tgrid = np.array([0.0, cfg["t"], 3.0 * cfg["t"]]) if kind == "chain" else np.array([0.0, 400.0, 1000.0])
+                try:
+                    Xg, Jg, Tg = sess.ode.solve_stochast(tgrid, 1, exact=True, full_output=True)
+                except (jump.seams.StepCap, jump.seams.Explosion):
+                    stats["inconclusive"] = stats.get("inconclusive", 0) + 1
+                    continue
+                except core.RunTimeout:
+                    raise
+                except Exception as e:
+                    out.append(core.crash_failure(PROP, e, pth, "solve_stochast exact, gridded"))
+                    break
+                Xg = np.asarray(Xg[0], float)
+                log.append(["g", core.digest(Xg.tolist())])
+                stats["gridded_paths"] = stats.get("gridded_paths", 0) + 1
+                for kind_, rate, v in sess.r.log:
+                    if kind_ == "e" and rate > 0:
+                        u = -math.expm1(-rate * v)
+                        pit[min(NBINS - 1, int(u * NBINS))] += 1
+                if kind == "chain":
+                    occ = Xg[1].copy() if occ is None else occ + Xg[1]
+                else:
+                    finals.append(int(round(Xg[-1][2])))
+                    if Xg[-1][1] != 0:
+                        stats["sir_not_extinct"] = stats.get("sir_not_extinct", 0) + 1
+                continue
             try:
                 Xs, Js, Ts = sess.ode.solve_stochast(np.float64(horizon), 1, exact=True, full_output=True)
             except (jump.seams.StepCap, jump.seams.Explosion):
